@@ -136,13 +136,18 @@ def work_rng(item, tally, which="C08"):
                       "distinct_files": len(texts), "one_file": sorted(texts)[0]})
 
 
-def work_quota(a, tally):
+def work_quota(a, tally, which="C08"):
     argv = genvectors.argv_of(a)
     from ..explore import Env
-    res = rngenv.run_generator(argv, Env([]))
-    tally.inc("quota_vectors")
-    tally.inc("executions")
-    check_result(a, res, tally, [], "C08")
+    # default RNG answers plus two deviating answer sequences
+    for choices in ([], [1], [0, 1, 1]):
+        try:
+            res = rngenv.run_generator(argv, Env(choices))
+        except HarnessError:
+            continue            # that deviation does not exist for this vector
+        tally.inc("quota_vectors" if not choices else "quota_vector_deviations")
+        tally.inc("executions")
+        check_result(a, res, tally, choices, which)
 
 
 def primitive_conformance(tally):
@@ -231,6 +236,9 @@ def main(tier, which="C08"):
     if which == "C08":
         tally.merge(pool.run(work_quota, genvectors.quota_vectors(), chunksize=50))
         primitive_conformance(tally)
+    else:
+        qv = [a for a in genvectors.quota_vectors() if a["twopl"]]
+        tally.merge(pool.run(lambda a, t: work_quota(a, t, "C12"), qv, chunksize=50))
     c = tally.c
     coverage = {
         "states": c.get("executions", 0),
